@@ -169,6 +169,20 @@ def record_sample(name):
     return _record(o, name, sample=name)
 
 
+FIXED = [   # hand-picked witnesses judged in every run: (label, sf, stop, cfg, field angle)
+    ("fixed: singlet R 32/-32 n 3/2, on-axis field only", [(32, 2, 4, 0), (132, 1, 40, 0)], 1, 1, 0.0),
+    ("fixed: concave spherical mirror R -32", [(132, 4, 12, 0)], 1, 1, PX.FIELD_ANGLE),
+    ("fixed: singlet R 32/-32 n 3/2, stop behind", [(32, 2, 4, 0), (132, 1, 40, 0)], 2, 3, PX.FIELD_ANGLE),
+]
+
+
+def record_fixed(i):
+    label, sf, s, cfg, fa = FIXED[i]
+    mats = {1: "air", 2: SR.table_medium(1.5, 1.0 / 16), 3: SR.table_medium(2.0, 1.0 / 8)}
+    o = PX.build_grid_lens(sf, s, cfg, field_angle=fa, wavelengths=(0.4861, 0.5876, 0.6563), materials=mats)
+    return _record(o, label, fixed=i)
+
+
 def clauses_of(verdicts, eid):
     out = []
     for j in range(1, verdicts[eid] + 1):
@@ -257,6 +271,9 @@ def trace_phase(work, seed, quick, fut_rand, fut_samp):
         if r.get("skip"):
             res["skips"].append("lens outside the property's quantifier: " + r["skip"])
             continue
+        if quick and r["L"]["K"] > 9:
+            res["skips"].append("quick tier: lens with more than 8 powered surfaces left to the thorough tier")
+            continue
         eid = len(events)
         events.append({"id": eid, "L": r["L"], "E": r["E"]})
         meta[eid] = r
@@ -296,7 +313,8 @@ def trace_phase(work, seed, quick, fut_rand, fut_samp):
         res["samples"].append({"lens": meta[a["id"]]["label"], "returned": meta[a["id"]]["raw"],
                                "verdict": "term clauses accepted"})
     # ---- calibration ----
-    picked = rnd.sample(clean, min(len(clean), 2 if quick else 12))
+    small = [e for e in clean if e["L"]["K"] <= 5] or clean
+    picked = rnd.sample(small, min(len(small), 2)) if quick else rnd.sample(clean, min(len(clean), 12))
     cal, expect = [], {}
     for ev in picked:
         for c, clauses in corruptions(ev, rnd):
@@ -321,9 +339,10 @@ def trace_phase(work, seed, quick, fut_rand, fut_samp):
 def main(ctx):
     quick = ctx.tier == "quick"
     pool = ProcessPoolExecutor(max_workers=12)
-    nrand = 14 if quick else 500
+    nrand = 12 if quick else 400
     fut_rand = [pool.submit(record_random, (ctx.seed * 15485863 + i,)) for i in range(nrand)]
     fut_samp = [pool.submit(record_sample, c.__name__) for c in G.sample_classes()]
+    fut_samp += [pool.submit(record_fixed, i) for i in range(len(FIXED))]
     tpool = ThreadPoolExecutor(max_workers=1)
     fut_trace = tpool.submit(trace_phase, ctx.work, ctx.seed, quick, fut_rand, fut_samp)
 
@@ -398,3 +417,37 @@ def main(ctx):
         "MC_Seidel grids are limited by TLC's 32-bit integers: one surface (all media, all configurations) and two "
         "surfaces with n in {1, 2} and mirrors, infinite object",
     ]
+
+
+def replay(ctx, rep):
+    """./check C08 --replay <file>: re-executes one recorded case and judges it again with Trace_Seidel."""
+    r = rep.get("repro", {})
+    if "grid_lens" in r:
+        g = r["grid_lens"]
+        mats = {1: "air", 2: SR.table_medium(1.5, 1.0 / 16), 3: SR.table_medium(2.0, 1.0 / 8)}
+        o = PX.build_grid_lens([tuple(q) for q in g["sf"]], g["stop"], g["cfg"], field_angle=g.get("field_angle", PX.FIELD_ANGLE),
+                               wavelengths=(0.4861, 0.5876, 0.6563), materials=mats)
+        rec = _record(o, "grid lens %s" % g)
+    elif r.get("sample"):
+        rec = record_sample(r["sample"])
+    elif r.get("seed") is not None:
+        rec = record_random((r["seed"],))
+    elif isinstance(r.get("lens"), str) and r["lens"].startswith("seed "):
+        rec = record_random((int(r["lens"].split()[1]),))
+    elif isinstance(r.get("lens"), str) and r["lens"].startswith("fixed"):
+        rec = record_fixed([f[0] for f in FIXED].index(r["lens"]))
+    elif isinstance(r.get("lens"), str):
+        rec = record_sample(r["lens"])
+    else:
+        raise T.MachineryError("replay file has no reproducible case")
+    if rec.get("error") or rec.get("skip"):
+        raise T.MachineryError("replay: %s" % (rec.get("error") or rec.get("skip")))
+    v = ctx.validate("Trace_Seidel", [{"id": 0, "L": rec["L"], "E": rec["E"]}], shards=1)
+    for name, k in clauses_of(v, 0):
+        if name.startswith("skip_"):
+            ctx.skip("degenerate input: " + name[5:])
+            continue
+        ctx.report(name, classify(name, k, rec["info"]),
+                   "%s: clause %s fails%s" % (rec["label"], name, " at index %d" % k if k else ""),
+                   {"lens": rec["label"], "returned": rec["raw"], "clause": name, "index": k})
+    ctx.sample({"lens": rec["label"], "returned": rec["raw"]})
